@@ -6,6 +6,14 @@ THEOREMS = ["Osmt.Properties.C01_unsat_sound", "Osmt.Properties.C01_unsat_roots"
             "Osmt.inputOk_sound", "Osmt.Smt.theoryOk_sound", "Osmt.Cdcl.step_unsat_sound", "Osmt.rup_sound"]
 
 
+def _attack(args):
+    import attack
+    try:
+        return attack.models_against_unsat(*args)
+    except Exception:
+        return []
+
+
 def run(tier):
     chk = common.Check("C01", tier)
     chk.lean_obligations(THEOREMS)
@@ -56,7 +64,22 @@ def run(tier):
             if witness is not None:
                 chk.violation("external-disagreement", "opensmt answers unsat, z3 finds a model (uncertified)",
                               {"script": c["script"], "external_model_of_assertions": witness})
-    chk.assumptions = ["roots handed to the engine vs. the user's assertions: C13", "frame literals are fresh Boolean variables",
+    # every certified unsat answer is attacked from the other side: z3 proposes a model of the assertions as written, the Lean
+    # evaluator validates it (a validated model contradicts the answer whatever the front end and the preprocessor did)
+    import multiprocessing as mp
+    cand = [(c, r) for c, r in zip(cases, results) if r["rc"] != "timeout" and "unsat" in r["answers"]
+            and all(v.startswith("OK") for v in r["verdicts"])]
+    with mp.Pool(min(common.JOBS, 14)) as pool:
+        found = pool.map(_attack, [(c["script"], r["stdout"]) for c, r in cand], chunksize=4)
+    attacked = 0
+    for (c, r), prs in zip(cand, found):
+        attacked += 1
+        chk.obligation(not prs)
+        for pr in prs[:1]:
+            chk.violation("wrong-answer", f"check #{pr['check']}: {pr['what']} ({c['logic']} {c['options']})",
+                          {"script": c["script"], "impl_answers": r["answers"], "assertions": pr["assertions"]})
+    chk.notes["unsat_answers_attacked_with_models"] = attacked
+    chk.assumptions = ["roots handed to the engine vs. the user's assertions: C13 (and the model attack on every unsat answer)", "frame literals are fresh Boolean variables",
                        "array logics are not in this corpus (no array kernel)"]
     return chk.finish(rule="one case = one generated script under one option vector; non-trivial = at least one unsat answer "
                            "whose whole trace was accepted; distinct by case index",
